@@ -1253,7 +1253,7 @@ def merge_extra_violations(prop, extra, viols, rc):
         rdir = os.path.join(VERIF, 'replays', prop); os.makedirs(rdir, exist_ok=True)
         rpath = os.path.join(rdir, re.sub(r'[^A-Za-z0-9_.-]', '_', v['case']) + '.json')
         json.dump(v['replay'], open(rpath, 'w'), indent=1, default=str)
-        print('VIOLATION property=%s replay=%s case=%s obligations=%s' % (prop, rpath, v['case'], '|'.join(v['names'][:3])[:200]))
+        print('VIOLATION property=%s replay=%s case=%s obligations=%s no-failing-input-found' % (prop, rpath, v['case'], '|'.join(v['names'][:3])[:200].replace(' ', '_')))
         nv += 1
     ev['coverage'].update(extra)
     ev['coverage']['known_findings'] = ev['coverage'].get('known_findings', []) + known
